@@ -94,4 +94,11 @@ PROPS = {
                "limit sets per joint in [-2pi,2pi]: any order, wrap-around with both limits positive / both negative / straddling zero, "
                "some joints from==to, ordinary, more than a turn apart, special values; 200 (quick) or 1000 draws of the real "
                "thread-local generator per set. non-trivial = every set (each line carries all draws)"),
+    "C13": cfg(120, 3000, ["C13."],
+               "hook level: dual_rrt_connect itself with a seeded sample stream, 0-3 box obstacles in joint space as the collision "
+               "predicate, step sizes {0.05,0.1,0.3,3deg}, budgets {1,3,20,200}, cancellation raised by the k-th sampling call (k=0: "
+               "before planning); the model replays the whole run (tree growth, path) and must agree. API level: plan_rrt on robots "
+               "with shape (C11 scenes, obstacles around the half-way configuration, every second robot with large safety distances), "
+               "per-node collides()/compliant() of the same robot, cancellation before the call and from another thread during it. "
+               "non-trivial = a path was returned"),
 }
